@@ -476,7 +476,9 @@ class Ctx:
                             "transitions": res["states"], "wall_s": round(res["wall"], 1), "ok": bool(ok),
                             "mode": "simulate" if simulate else "exhaustive", "constants": {"MaxB": maxb, "MaxUser": maxuser}})
         if not ok:
-            raise tlc.TlcError(f"model {name} did not pass:\n" + tlc_digest(res["out"]) + "\n" + res["out"][-1500:])
+            err = tlc.TlcError(f"model {name} did not pass:\n" + tlc_digest(res["out"]) + "\n" + res["out"][-1500:])
+            err.out = res["out"]
+            raise err
         behs = replay_model.parse_behaviours(res["out"])
         # distinct behaviours, deterministic sample
         seen, uniq = set(), []
@@ -1336,6 +1338,23 @@ def check_C13(ctx):
                     families.scn("ABC", blk={"A": ["C"], "B": ["C"]}, flag="A", rc={"C": 2}, groups=[families.G(size=1, procs=1)], maxnodes=2)],
                    maxb=6, maxuser=3, max_replay=150 if q else 2000,
                    resub=[["--failed", "--missing"], ["--no-failed", "--missing", "--successful"], ["--failed", "--no-missing", "--successful"]])
+    # K2 at the protocol level: with a batch rejected at sbatch (a missing job) and `--no-missing`, TLC must find the behaviour
+    # in which a rerun job is handed over without the missing blocker -- and that behaviour, replayed into the code, must be
+    # the known finding (if TLC no longer finds it, the model or the finding changed)
+    k2scn = families.scn("ADC", blk={"C": ["A", "D"]}, groups=[families.G(size=1, procs=1)], maxnodes=0)
+    try:
+        ctx.impl_model("JadeImpl + sbatch fault + resubmit-jobs --no-missing (expected to fail: K2)", [k2scn], maxb=5, maxuser=4,
+                       faults=("sbatch",), maxfaults=1, resub=[["--no-failed", "--no-missing", "--successful"]], max_replay=0)
+        raise HarnessError("the protocol model no longer shows the K2 counterexample")
+    except tlc.TlcError as e:
+        ctx.models[-1]["ok"] = True
+        ctx.models[-1]["expected_violation"] = "MonitorClean (HandoverCoversUnfinished / StartAfterBlockers): K2"
+        if "HandoverCoversUnfinished" not in str(e) and "StartAfterBlockers" not in str(e):
+            raise
+        cp = cex_path(getattr(e, "out", str(e)))
+        ctx.models[-1]["counterexample_replayed"] = bool(cp)
+        if cp:
+            tasks.append(("model_replay", (k2scn, cp, 5, [])))
     traces = run_tasks(tasks)
     ctx.judge(traces, "completed submissions (incl. missing jobs) resubmitted once or twice with random flag combinations, "
               "with and without report generation; resubmit-jobs on incomplete submissions")
